@@ -242,11 +242,25 @@ def _save_pre(ctx):
             req = (data,) + args
     except Exception:
         req = None
-    return (fn, before, req)
+    try:
+        mem = snap.tg_snap(tg)
+    except Exception:
+        mem = None
+    return (fn, before, req, mem)
 
 
 def _save_post(ctx):
-    fn, before, req = ctx.pre
+    fn, before, req, mem = ctx.pre
+    if mem is not None:
+        try:
+            now = snap.tg_snap(ctx.self_)
+        except Exception:
+            now = None
+        if now != mem:
+            # "saving adds only blanks" - to the file; the textgrid that was saved is not what gets filled
+            REC.violation(PROP, "write.file", "save", {"call": "save-twice", "tg": mem, "args": snap.any_snap(list(ctx.args[1:])), "kwargs": snap.any_snap(ctx.kwargs)},
+                          "save changed the textgrid in memory: %r -> %r" % (mem, now), ("save-mutates",), {"via": "save", "mutates": True})
+            return
     if ctx.exc is None and req is not None and not must_raise(req[0], req[2], req[3], req[4]):
         data, fmt, blanks, minT, maxT, thr = req
         case = {"call": "save", "tg": snap_like(data), "format": fmt, "blanks": blanks, "minT": minT, "maxT": maxT, "thr": thr}
@@ -382,6 +396,8 @@ def workload(tier, rng, shard, nshards, work):
             tmax = end + rng.choice([0.0, 0.0, 5e-9, 2e-8, 0.5])
             tmin = rng.choice([0.0, start])
             data = {"min": tmin, "max": tmax, "tiers": [{"t": "I", "name": "r", "min": tmin, "max": tmax, "entries": ents}]}
+            if rng.random() < 0.2:
+                data["tiers"].append({"t": "I", "name": "unlabelled", "min": tmin, "max": tmax, "entries": []})  # filled with one blank in the FILE
             if rng.random() < 0.3:
                 data["tiers"].append({"t": "P", "name": "pp", "min": tmin, "max": tmax, "entries": [(start, "p"), (start + 3e-9, "q")] if start + 3e-9 <= tmax else [(start, "p")]})
             try:
@@ -430,6 +446,8 @@ def replay(v, work):
             tg = snap.build_tg(c["tg"])
         if c["call"] == "write":
             call(textgrid_io.getTextgridAsStr, _tgToDictionary(tg), c["format"], c["blanks"], c["minT"], c["maxT"], c["thr"])
+        elif c["call"] == "save-twice":
+            call(tg.save, os.path.join(str(work), "replay_dest"), *c["args"], **c["kwargs"])
         elif c["call"] == "save":
             call(tg.save, os.path.join(str(work), "replay_dest"), c["format"], c["blanks"], c["minT"], c["maxT"], c["thr"], "silence")
         else:
